@@ -142,6 +142,11 @@ def run(ctx):
         if not sts:
             ctx.violation("C07.R5", f"append arm assigns {attr} from the existing header", wi.where(t.ast), f"Writer.__init__: append arm does not assign {attr}", f"when appending, {attr} keeps the value computed from the constructor's arguments instead of the existing file's header")
             continue
+        # ... on every path through the arm, not only when the arguments differ from the file
+        starts = [m for (m, lab) in t.succ if lab == "true"]
+        anodes = [cfg.node_of(st) for st in sts]
+        every = all(m in anodes or cfg.must_pass(m, cfg.exit, anodes, skip_labels=("exc",)) for m in starts)
+        ctx.check("C07.R5", f"append arm: {attr} is taken from the existing file on every path", every, wi.where(sts[0]), f"Writer.__init__: a path through the append arm keeps the constructor's {attr}", f"records appended with the caller's {attr} instead of the file's are encoded or framed differently from what the file's own header says (a schema with an equal canonical form can still differ in logical types, defaults or aliases)")
         for st in sts:
             txt = norm(st.value)
             ok = must in txt and header_derived(st.value) and not any(p_ in {x.id for x in ast.walk(st.value) if isinstance(x, ast.Name) and x.id not in arm_assigns} for p_ in params)
